@@ -57,19 +57,19 @@ func (c smtpCfg) clientTLS() *tls.Config {
 
 // smtpCfg is the serialisable client configuration used by the SMTP checks.
 type smtpCfg struct {
-	TLS       string   `json:"tls"`            // none | opportunistic | mandatory
+	TLS string `json:"tls"` // none | opportunistic | mandatory
 	// SessionCache: the caller's tls.Config has a ClientSessionCache, so a second connection of the
 	// same Client resumes the TLS session of the first.
-	SessionCache bool `json:"session_cache,omitempty"`
-	Auth      string   `json:"auth,omitempty"` // "" or a mail.SMTPAuthType value
-	User      string   `json:"user,omitempty"`
-	Pass      string   `json:"pass,omitempty"`
-	DSN       string   `json:"dsn,omitempty"` // "" | default (WithDSN) | custom
-	DSNRet    string   `json:"dsn_ret,omitempty"`
-	DSNNotify []string `json:"dsn_notify,omitempty"`
-	HELO      string   `json:"helo,omitempty"`
-	TimeoutMS int      `json:"timeout_ms,omitempty"`
-	NoNoop    bool     `json:"no_noop,omitempty"`
+	SessionCache bool     `json:"session_cache,omitempty"`
+	Auth         string   `json:"auth,omitempty"` // "" or a mail.SMTPAuthType value
+	User         string   `json:"user,omitempty"`
+	Pass         string   `json:"pass,omitempty"`
+	DSN          string   `json:"dsn,omitempty"` // "" | default (WithDSN) | custom
+	DSNRet       string   `json:"dsn_ret,omitempty"`
+	DSNNotify    []string `json:"dsn_notify,omitempty"`
+	HELO         string   `json:"helo,omitempty"`
+	TimeoutMS    int      `json:"timeout_ms,omitempty"`
+	NoNoop       bool     `json:"no_noop,omitempty"`
 	// Fallback: use WithTLSPortPolicy(TLSOpportunistic), which configures a fallback port; the
 	// harness then refuses the first dial so that the session runs on the fallback connection.
 	Fallback bool `json:"fallback,omitempty"`
